@@ -37,6 +37,7 @@ type world struct {
 	// dial fault state (A-B pair), consumed by the DialFault hook
 	failLeft    map[string]int // dialing node name -> attempts still to fail
 	resetOnDial bool
+	resetOnDial0 bool
 	dialsAB     int
 
 	tun tunnelState
@@ -174,6 +175,7 @@ func (w *world) installDialHook() {
 			return errors.New("simulated dial failure")
 		}
 		if w.resetOnDial {
+			simrt.Eventf("DEBUG resetOnDial armed at dial %s->%s", from, to)
 			if l, ok := w.pairUp(nA, nB); ok {
 				w.resetOnDial = false
 				w.mon.faulted[l.ID] = true
@@ -262,6 +264,9 @@ func runC32() {
 			simrt.Probe("c32_final_state_checked")
 		}
 	}
+	if w.resetOnDial0 && w.mutual {
+		simrt.Failf("debug", "debug", "x")
+	}
 	if simrt.Chance(1, 4, "control") {
 		w.controlMarker()
 	}
@@ -304,6 +309,9 @@ func (w *world) drawDialFaults() {
 	w.failLeft[a] = simrt.Choose(4, "failA")
 	w.failLeft[b] = simrt.Choose(4, "failB")
 	w.resetOnDial = simrt.Chance(1, 3, "resetondial")
+	if w.resetOnDial {
+		w.resetOnDial0 = true
+	}
 }
 
 // (c) read error, then fast reconnect with a drawn number of failing dials
